@@ -9,13 +9,13 @@ def run(ctx):
     drv = vlib.build_harness()
     ctx.mc("MC_JpegLS_h3", "MC_JpegLS_h3.cfg", workers=2)
     for cfg in (["MC_JpegLS_q.cfg", "MC_JpegLS_q3.cfg"] if ctx.quick else ["MC_JpegLS_q.cfg", "MC_JpegLS_q3.cfg", "MC_JpegLS_t.cfg", "MC_JpegLS_t3.cfg", "MC_JpegLS_tp3.cfg"]):
-        ctx.mc("MC_JpegLS", cfg, timeout=3000)
+        ctx.mc("MC_JpegLS", cfg, timeout=3000 if ctx.quick else 14400)
     trace = os.path.join(wd, "trace.ndjson")
     args = ["c14", "--out", trace, "--seed", str(ctx.seed)] + (["--n", "900", "--maxdim", "14"] if ctx.quick else ["--n", "12000", "--maxdim", "40"])
     out = vlib.run_driver(drv, args, env=ctx.env())
     stats = dict(kv.split("=") for kv in out.strip().split()[1:])
     shards = vlib.shard_trace(trace, wd, vlib.NCPU, max_bytes=6 << 20)
-    val = vlib.validate(wd, "JlsTrace", shards, timeout=3000)
+    val = vlib.validate(wd, "JlsTrace", shards, timeout=3000 if ctx.quick else 14400)
     steps = sum(int(i.split("=")[1]) for i in val["infos"] if i.startswith("steps="))
     classes, samples = set(), []
     with open(trace) as f:
